@@ -1,9 +1,9 @@
 #!/bin/bash
 # setup: warm the Go build cache by building the harness once, parse all TLA+ modules.
 set -euo pipefail
-cd /verif
+cd "$(dirname "$(dirname "$(realpath "$0")")")"
 mkdir -p .work evidence
-bin/build.sh /verif/.work/build
+bin/build.sh "$PWD/.work/build"
 mkdir -p .work/sany && cp spec/*.tla .work/sany/ && cd .work/sany
 for f in *.tla; do
   case "$f" in Trace*|MC_*|PKO.tla) timeout 120 tla-sany "$f" > /dev/null || { echo "SANY failed on $f"; exit 1; } ;; esac
